@@ -8,9 +8,23 @@ Open Scope N_scope.
      plain  : (cid, rid) the request line of rid was visible in the raw bytes the client wrote on cid
      outs   : per call, the error class returned *)
 Inductive c21case :=
-| C21Hist (cwt : bool) (hcs : list hcfg) (calls : list call)
+| C21Hist (cwt : bool) (conf : N) (hcs : list hcfg) (calls : list call)
           (dials : list (N * bytes * bool)) (writes : list (N * N * bool)) (plain : list (N * N)) (outs : list N)
+(* observation-only history (TLS handshake failures, configurations outside the model): judged by prop_ok alone *)
+| C21Obs (keeps_addr : bool) (hcs : list hcfg) (calls : list call)
+         (dials : list (N * bytes * bool)) (writes : list (N * N * bool)) (plain : list (N * N))
 | C21Port (addr : bytes) (isTLS : bool) (impl : bytes).
+
+(* Client.ConfigureClient functions used by the harness: 0 nil, 1 flips IsTLS, 2 sets Addr to "c.test:9", 3 returns an error,
+   4 sets WriteTimeout *)
+Definition conf_of (c : N) : hostclient -> option hostclient :=
+  match c with
+  | 1 => fun hc => Some {| hc_addr := hc_addr hc; hc_tls := negb (hc_tls hc); hc_wt := hc_wt hc; hc_pool := hc_pool hc |}
+  | 2 => fun hc => Some {| hc_addr := s2b "c.test:9"; hc_tls := hc_tls hc; hc_wt := hc_wt hc; hc_pool := hc_pool hc |}
+  | 3 => fun _ => None
+  | 4 => fun hc => Some {| hc_addr := hc_addr hc; hc_tls := hc_tls hc; hc_wt := true; hc_pool := hc_pool hc |}
+  | _ => conf_id
+  end.
 
 Definition out_code (o : outcome) : N :=
   match o with
@@ -22,6 +36,7 @@ Definition out_code (o : outcome) : N :=
   | OErr ETooManyRedirects => 5
   | OErr ENoClient => 6
   | OErr EOutOfFuel => 7
+  | OErr EConfigure => 8
   end.
 
 Definition model_dials (tr : list event) : list (N * bytes * bool) :=
@@ -43,11 +58,12 @@ Definition fix_maxred (c : call) : call :=
 
 Definition corr_ok (c : c21case) : bool :=
   match c with
-  | C21Hist cwt hcs calls dials writes _ outs =>
-      let '(_, tr, mo) := run (init cwt hcs) (map fix_maxred calls) in
+  | C21Hist cwt conf hcs calls dials writes _ outs =>
+      let '(_, tr, mo) := run (init_conf cwt (conf_of conf) hcs) (map fix_maxred calls) in
       list_eqb dial_eqb (model_dials tr) dials
       && list_eqb nn_eqb (model_writes tr) (map (fun w => (fst (fst w), snd (fst w))) writes)
       && list_eqb N.eqb (map out_code mo) outs
+  | C21Obs _ _ _ _ _ _ => true
   | C21Port addr isTLS impl => beq (AddMissingPort addr isTLS) impl
   end.
 
@@ -75,16 +91,15 @@ Definition mismatching (hcs : list hcfg) (c : call) : list req :=
   | CLB i h => filter (bad i) [fst h]
   end.
 
-Definition prop_ok (c : c21case) : bool :=
-  match c with
-  | C21Hist _ hcs calls dials writes plain _ =>
+Definition hist_ok (keeps_addr : bool) (hcs : list hcfg) (calls : list call)
+           (dials : list (N * bytes * bool)) (writes : list (N * N * bool)) (plain : list (N * N)) : bool :=
       (* every request seen by a server *)
       forallb (fun w => let '(cid, rid, viaTLS) := w in
         match find_req rid calls, find_dial cid dials with
         | Some r, Some (addr, tls) =>
             if https_scheme (r_scheme r)
             then tls && viaTLS && negb (existsb (nn_eqb (cid, rid)) plain)
-                 && (if via_client r then beq addr (own_addr (r_host r) true) else true)
+                 && (if via_client r && keeps_addr then beq addr (own_addr (r_host r) true) else true)
             else negb tls && negb viaTLS          (* not on a connection created for https *)
         | _, _ => false                            (* a request nobody submitted, or an unknown connection *)
         end) writes
@@ -94,6 +109,12 @@ Definition prop_ok (c : c21case) : bool :=
       (* HostClient refuses mismatching schemes: such a request reaches no connection *)
       && forallb (fun r => negb (existsb (fun w => snd (fst w) =? r_id r) writes)
                            && negb (existsb (fun p => snd p =? r_id r) plain))
-                 (flat_map (mismatching hcs) calls)
+                 (flat_map (mismatching hcs) calls).
+
+(* "to its own host" is judged unless the user's ConfigureClient itself redirected the HostClient to another address (conf 2) *)
+Definition prop_ok (c : c21case) : bool :=
+  match c with
+  | C21Hist _ conf hcs calls dials writes plain _ => hist_ok (negb (conf =? 2)) hcs calls dials writes plain
+  | C21Obs keeps hcs calls dials writes plain => hist_ok keeps hcs calls dials writes plain
   | C21Port addr isTLS impl => beq impl (own_addr addr isTLS)
   end.
